@@ -46,6 +46,15 @@ Theorem C07_null_never_released : forall c, claims_match (Some VNone) c = false 
 Proof. exact claims_match_null. Qed.
 Print Assumptions C07_null_never_released.
 
+(* the claims a scope list stands for do not depend on the order in which the scopes are listed (nor on repetitions):
+   same claim names, each with the null specification *)
+Theorem C07_scope_order_irrelevant : forall pm allowed cmap s1 s2,
+  (forall x, In x s1 <-> In x s2) ->
+  (forall k, In k (keys (scopes_to_claims pm allowed cmap s1)) <-> In k (keys (scopes_to_claims pm allowed cmap s2)))
+  /\ all_null (scopes_to_claims pm allowed cmap s1) /\ all_null (scopes_to_claims pm allowed cmap s2).
+Proof. exact scope_order_irrelevant. Qed.
+Print Assumptions C07_scope_order_irrelevant.
+
 (* non-vacuity: email by scope (allowed), phone by scope (not allowed for the client), nickname by claims request with
    a value constraint that the user does not meet, name always added *)
 Definition pm : scope_map := [(PS "openid", [PS "sub"]); (PS "email", [PS "email"; PS "email_verified"]); (PS "phone", [PS "phone_number"])].
